@@ -70,6 +70,7 @@ type Ctx struct {
 	// identifiers by pinned name (alias.go)
 	funcByCanon map[string]*types.Func
 	typeByCanon map[string]*types.TypeName
+	freshFuncs  map[*types.Func]bool // functions the pinned inventory does not know (extracted helpers, new code)
 	Aliases     []string // renamed identifiers recognised by shape, "pkg.current = pinned name"
 }
 
@@ -142,6 +143,21 @@ func Load(cfg Config) (*Ctx, error) {
 		if fn.Blocks != nil && c.IsLib(fn) {
 			c.NumFuncs++
 		}
+	}
+	// call sites of fresh functions, for provenance through their parameters
+	for fn := range c.allFns {
+		if fn.Blocks == nil || !c.IsLib(fn) {
+			continue
+		}
+		Instrs(fn, func(in ssa.Instruction) {
+			if ci, ok := in.(ssa.CallInstruction); ok {
+				if cal := ci.Common().StaticCallee(); cal != nil && c.IsFresh(cal) {
+					freshMu.Lock()
+					freshCalls[cal] = append(freshCalls[cal], ci)
+					freshMu.Unlock()
+				}
+			}
+		})
 	}
 	c.declIdx = map[*types.Func]*ast.FuncDecl{}
 	for _, p := range c.ByRel {
@@ -239,6 +255,9 @@ func (c *Ctx) Decl(fn *ssa.Function) *ast.FuncDecl {
 	}
 	return nil
 }
+
+// DeclOfObj returns the syntax of a function object of a library package.
+func (c *Ctx) DeclOfObj(f *types.Func) *ast.FuncDecl { return c.declIdx[f] }
 
 // DeclOf returns the syntax of a function by package and name.
 func (c *Ctx) DeclOf(rel, name string) *ast.FuncDecl { return c.Decl(c.Func(rel, name)) }
